@@ -504,6 +504,14 @@ class Engine:
             st.clock = t
         if is_for:
             k = st.fresh("k.loop", I)
+            itr = node.iter
+            if isinstance(itr, ast.Call) and not itr.keywords and (
+                    (isinstance(itr.func, ast.Name) and itr.func.id == "enumerate" and len(itr.args) == 1
+                     and isinstance(itr.args[0], (ast.Name, ast.Attribute)))
+                    or (isinstance(itr.func, ast.Attribute) and itr.func.attr in ("items", "values", "keys") and not itr.args
+                        and isinstance(itr.func.value, (ast.Name, ast.Attribute)))):
+                # a view (enumerate / dict view) of a container: it follows the container as the havocked state describes it
+                src = it.eval(itr, env)
             sv = lib.seq_view(it, src)
             arr, lo, hi = sv
             st.assume(z3.And(lo <= k, k <= hi))
